@@ -1,0 +1,262 @@
+//go:build verif
+
+// This file is only compiled with the "verif" build tag. It adds read-only
+// introspection used by the deterministic simulator under /verif, and a small
+// set of exported wrappers around the unexported log types so that the log
+// stack can be driven in isolation. Nothing here is referenced by the rest of
+// the package; with the tag off the package is unchanged.
+
+package raft
+
+import (
+	"sort"
+
+	pb "go.etcd.io/raft/v3/raftpb"
+	"go.etcd.io/raft/v3/tracker"
+)
+
+// VerifProgress is a copy of the parts of tracker.Progress the simulator reads.
+type VerifProgress struct {
+	Match, Next      uint64
+	State            tracker.StateType
+	PendingSnapshot  uint64
+	RecentActive     bool
+	MsgAppFlowPaused bool
+	IsLearner        bool
+	InflightCount    int
+	InflightFull     bool
+	Paused           bool
+}
+
+// VerifState is a read-only dump of a RawNode. Slices of entries and messages
+// alias raft's memory and must not be mutated.
+type VerifState struct {
+	ID, Term, Vote, Lead uint64
+	State                StateType
+	IsLearner            bool
+	LeadTransferee       uint64
+
+	ElectionElapsed, HeartbeatElapsed int
+	ElectionTimeout, HeartbeatTimeout int
+	RandomizedElectionTimeout         int
+
+	PendingConfIndex uint64
+	UncommittedSize  uint64
+
+	Committed, Applying, Applied uint64
+	ApplyingEntsSize             uint64
+	MaxApplyingEntsSize          uint64
+	ApplyingEntsPaused           bool
+
+	FirstIndex, LastIndex uint64
+
+	UnstableOffset, UnstableOffsetInProgress uint64
+	UnstableEntries                          []*pb.Entry
+	UnstableSnapshot                         *pb.Snapshot
+	UnstableSnapshotInProgress               bool
+
+	Voters, VotersOutgoing, Learners, LearnersNext []uint64
+	AutoLeave                                      bool
+
+	ProgressIDs []uint64
+	Progress    map[uint64]VerifProgress
+	Votes       map[uint64]bool
+
+	Msgs, MsgsAfterAppend []*pb.Message
+	StepsOnAdvance        []*pb.Message
+
+	ReadStates         int
+	UnconfirmedReads   int
+	PendingReadIndex   int
+	ReadOnlyOption     ReadOnlyOption
+	AsyncStorageWrites bool
+}
+
+func verifSortedIDs(m map[uint64]struct{}) []uint64 {
+	if len(m) == 0 {
+		return nil
+	}
+	ids := make([]uint64, 0, len(m))
+	for id := range m {
+		ids = append(ids, id)
+	}
+	sort.Slice(ids, func(i, j int) bool { return ids[i] < ids[j] })
+	return ids
+}
+
+// VerifState returns a dump of the node. It never mutates the node.
+func (rn *RawNode) VerifState() VerifState {
+	r := rn.raft
+	l := r.raftLog
+	s := VerifState{
+		ID: r.id, Term: r.Term, Vote: r.Vote, Lead: r.lead,
+		State:          r.state,
+		IsLearner:      r.isLearner,
+		LeadTransferee: r.leadTransferee,
+
+		ElectionElapsed: r.electionElapsed, HeartbeatElapsed: r.heartbeatElapsed,
+		ElectionTimeout: r.electionTimeout, HeartbeatTimeout: r.heartbeatTimeout,
+		RandomizedElectionTimeout: r.randomizedElectionTimeout,
+
+		PendingConfIndex: r.pendingConfIndex,
+		UncommittedSize:  uint64(r.uncommittedSize),
+
+		Committed: l.committed, Applying: l.applying, Applied: l.applied,
+		ApplyingEntsSize:    uint64(l.applyingEntsSize),
+		MaxApplyingEntsSize: uint64(l.maxApplyingEntsSize),
+		ApplyingEntsPaused:  l.applyingEntsPaused,
+
+		FirstIndex: l.firstIndex(), LastIndex: l.lastIndex(),
+
+		UnstableOffset: l.unstable.offset, UnstableOffsetInProgress: l.unstable.offsetInProgress,
+		UnstableEntries:            l.unstable.entries,
+		UnstableSnapshot:           l.unstable.snapshot,
+		UnstableSnapshotInProgress: l.unstable.snapshotInProgress,
+
+		Voters:         verifSortedIDs(r.trk.Voters[0]),
+		VotersOutgoing: verifSortedIDs(r.trk.Voters[1]),
+		Learners:       verifSortedIDs(r.trk.Learners),
+		LearnersNext:   verifSortedIDs(r.trk.LearnersNext),
+		AutoLeave:      r.trk.AutoLeave,
+
+		Msgs: r.msgs, MsgsAfterAppend: r.msgsAfterAppend,
+		StepsOnAdvance: rn.stepsOnAdvance,
+
+		ReadStates:         len(r.readStates),
+		UnconfirmedReads:   len(r.readOnly.unconfirmedReads),
+		PendingReadIndex:   len(r.pendingReadIndexMessages),
+		ReadOnlyOption:     r.readOnly.option,
+		AsyncStorageWrites: rn.asyncStorageWrites,
+	}
+	s.Progress = make(map[uint64]VerifProgress, len(r.trk.Progress))
+	for id, pr := range r.trk.Progress {
+		s.ProgressIDs = append(s.ProgressIDs, id)
+		vp := VerifProgress{
+			Match: pr.Match, Next: pr.Next, State: pr.State,
+			PendingSnapshot: pr.PendingSnapshot, RecentActive: pr.RecentActive,
+			MsgAppFlowPaused: pr.MsgAppFlowPaused, IsLearner: pr.IsLearner,
+			Paused: pr.IsPaused(),
+		}
+		if pr.Inflights != nil {
+			vp.InflightCount = pr.Inflights.Count()
+			vp.InflightFull = pr.Inflights.Full()
+		}
+		s.Progress[id] = vp
+	}
+	sort.Slice(s.ProgressIDs, func(i, j int) bool { return s.ProgressIDs[i] < s.ProgressIDs[j] })
+	if len(r.trk.Votes) > 0 {
+		s.Votes = make(map[uint64]bool, len(r.trk.Votes))
+		for id, v := range r.trk.Votes {
+			s.Votes[id] = v
+		}
+	}
+	return s
+}
+
+// VerifLogTerm is raftLog.term, the combined stable+unstable view.
+func (rn *RawNode) VerifLogTerm(i uint64) (uint64, error) {
+	return rn.raft.raftLog.term(i)
+}
+
+// VerifLogEntries is raftLog.slice(lo, hi, noLimit) clamped to the available
+// range, i.e. the combined stable+unstable view raft itself reads.
+func (rn *RawNode) VerifLogEntries(lo, hi uint64) ([]*pb.Entry, error) {
+	l := rn.raft.raftLog
+	if fi := l.firstIndex(); lo < fi {
+		lo = fi
+	}
+	if li := l.lastIndex(); hi > li+1 {
+		hi = li + 1
+	}
+	if lo >= hi {
+		return nil, nil
+	}
+	return l.slice(lo, hi, noLimit)
+}
+
+// VerifSetRandomizedElectionTimeout pins the randomized election timeout. It is
+// used only by directed regression scenarios.
+func (rn *RawNode) VerifSetRandomizedElectionTimeout(t int) {
+	rn.raft.randomizedElectionTimeout = t
+}
+
+// VerifLog wraps a raftLog so that the log stack (raftLog + unstable + Storage)
+// can be driven directly.
+type VerifLog struct{ l *raftLog }
+
+// VerifLogSlice mirrors logSlice.
+type VerifLogSlice struct {
+	Term      uint64
+	PrevIndex uint64
+	PrevTerm  uint64
+	Entries   []*pb.Entry
+}
+
+func NewVerifLog(storage Storage, logger Logger, maxApplyingEntsSize uint64) *VerifLog {
+	return &VerifLog{l: newLogWithSize(storage, logger, entryEncodingSize(maxApplyingEntsSize))}
+}
+
+func (v *VerifLog) MaybeAppend(a VerifLogSlice, committed uint64) (uint64, bool) {
+	return v.l.maybeAppend(logSlice{term: a.Term, prev: entryID{term: a.PrevTerm, index: a.PrevIndex}, entries: a.Entries}, committed)
+}
+func (v *VerifLog) Append(ents ...*pb.Entry) uint64 { return v.l.append(ents...) }
+func (v *VerifLog) CommitTo(i uint64)               { v.l.commitTo(i) }
+func (v *VerifLog) AppliedTo(i uint64, size uint64) { v.l.appliedTo(i, entryEncodingSize(size)) }
+func (v *VerifLog) AcceptApplying(i uint64, size uint64, allowUnstable bool) {
+	v.l.acceptApplying(i, entryEncodingSize(size), allowUnstable)
+}
+func (v *VerifLog) NextUnstableEnts() []*pb.Entry      { return v.l.nextUnstableEnts() }
+func (v *VerifLog) NextUnstableSnapshot() *pb.Snapshot { return v.l.nextUnstableSnapshot() }
+func (v *VerifLog) HasNextOrInProgressUnstableEnts() bool {
+	return v.l.hasNextOrInProgressUnstableEnts()
+}
+func (v *VerifLog) HasNextOrInProgressSnapshot() bool { return v.l.hasNextOrInProgressSnapshot() }
+func (v *VerifLog) AcceptUnstable()                   { v.l.acceptUnstable() }
+func (v *VerifLog) StableTo(term, index uint64)       { v.l.stableTo(entryID{term: term, index: index}) }
+func (v *VerifLog) StableSnapTo(i uint64)             { v.l.stableSnapTo(i) }
+func (v *VerifLog) Restore(s *pb.Snapshot)            { v.l.restore(s) }
+func (v *VerifLog) NextCommittedEnts(allowUnstable bool) []*pb.Entry {
+	return v.l.nextCommittedEnts(allowUnstable)
+}
+func (v *VerifLog) HasNextCommittedEnts(allowUnstable bool) bool {
+	return v.l.hasNextCommittedEnts(allowUnstable)
+}
+func (v *VerifLog) Term(i uint64) (uint64, error) { return v.l.term(i) }
+func (v *VerifLog) Entries(i uint64, maxSize uint64) ([]*pb.Entry, error) {
+	return v.l.entries(i, entryEncodingSize(maxSize))
+}
+func (v *VerifLog) Slice(lo, hi uint64, maxSize uint64) ([]*pb.Entry, error) {
+	return v.l.slice(lo, hi, entryEncodingSize(maxSize))
+}
+func (v *VerifLog) FirstIndex() uint64 { return v.l.firstIndex() }
+func (v *VerifLog) LastIndex() uint64  { return v.l.lastIndex() }
+func (v *VerifLog) LastTerm() uint64   { return v.l.lastEntryID().term }
+func (v *VerifLog) Committed() uint64  { return v.l.committed }
+func (v *VerifLog) Applying() uint64   { return v.l.applying }
+func (v *VerifLog) Applied() uint64    { return v.l.applied }
+func (v *VerifLog) UnstableOffset() uint64 {
+	return v.l.unstable.offset
+}
+func (v *VerifLog) UnstableOffsetInProgress() uint64 { return v.l.unstable.offsetInProgress }
+func (v *VerifLog) UnstableLen() int                 { return len(v.l.unstable.entries) }
+func (v *VerifLog) MatchTerm(term, index uint64) bool {
+	return v.l.matchTerm(entryID{term: term, index: index})
+}
+func (v *VerifLog) IsUpToDate(term, index uint64) bool {
+	return v.l.isUpToDate(entryID{term: term, index: index})
+}
+func (v *VerifLog) MaybeCommit(term, index uint64) bool {
+	return v.l.maybeCommit(entryID{term: term, index: index})
+}
+func (v *VerifLog) FindConflictByTerm(index, term uint64) (uint64, uint64) {
+	return v.l.findConflictByTerm(index, term)
+}
+func (v *VerifLog) Snapshot() (*pb.Snapshot, error) { return v.l.snapshot() }
+
+// VerifEntsSize is the encoded size raft uses for size limits.
+func VerifEntsSize(ents []*pb.Entry) uint64 { return uint64(entsSize(ents)) }
+
+// VerifLimitSize is limitSize.
+func VerifLimitSize(ents []*pb.Entry, maxSize uint64) []*pb.Entry {
+	return limitSize(ents, entryEncodingSize(maxSize))
+}
